@@ -47,11 +47,14 @@ theorem seek_at {F : File} (hwf : WF F) {r : Reader} {s : State} (h : Sim F r s)
     rw [hseek]
     exact ⟨rfl, rfl, rfl, pre', m', post', ⟨hfile, hF, by simp [hofile], hb, rfl⟩, ho, hp⟩
   · have heq : o.file = r.cur.base := by omega
-    have hseek : r.seek o = (({ r with cur := r.cur.seek o.block, err := none, lastChunk := ⟨o, o⟩ } : Reader), none) := by
-      simp [Reader.seek, heq]
-    rw [hseek]
     rcases hpos with ⟨pre, m, post, k, hat, _⟩ | ⟨heof, _⟩
-    · have hcs : csum pre = csum pre' := by
+    · have hd : r.cur.hasData = true := by
+        have := (WF.mid (hat.split ▸ hwf)).1
+        rw [hat.cur]; simp [Block.hasData]; omega
+      have hseek : r.seek o = (({ r with cur := r.cur.seek o.block, err := none, lastChunk := ⟨o, o⟩ } : Reader), none) := by
+        simp [Reader.seek, heq, hd]
+      rw [hseek]
+      have hcs : csum pre = csum pre' := by
         have := hat.cur; rw [this] at heq; simp at heq; omega
       have hu := split_unique (hat.split ▸ hwf) (hat.split.symm.trans hF) hcs
       obtain ⟨rfl, rfl, rfl⟩ := hu
